@@ -8,6 +8,7 @@ import (
 	"crypto/tls"
 	"errors"
 	"fmt"
+	"io"
 	"os"
 	"runtime"
 	"strconv"
@@ -38,6 +39,13 @@ type dialConn struct {
 	i   int
 	log func(Ev)
 }
+
+type dialIface interface {
+	io.Closer
+	idx() int
+}
+
+func (c *dialConn) idx() int { return c.i }
 
 func (c *dialConn) Close() error { c.log(Ev{"e": "close", "i": c.i}); return nil }
 
@@ -73,57 +81,52 @@ func runDialScenario(t *testing.T, sc dialScen, delay, timeout int) (evs []Ev, c
 				idx[a+":443"] = i + 1
 			}
 		}
-		d := &ech.Dialer[*dialConn]{
-			MaxConcurrency:   sc.K,
-			ConcurrencyDelay: time.Duration(delay) * dialUnit,
-			Timeout:          time.Duration(timeout) * dialUnit,
-			DialFunc: func(ctx context.Context, network, addr string, tc *tls.Config) (*dialConn, error) {
-				i := idx[addr]
-				if i == 0 {
-					log(Ev{"e": "badaddr", "addr": addr})
-					return nil, errors.New("unknown address")
-				}
-				o := sc.Oc[i-1]
-				// half of the hanging attempts hang in their *second* handshake: the first one is rejected by the server with
-				// retry configs after one time unit, and the attempt goes on with the new list - still one attempt, one Timeout
-				mu.Lock()
-				calls[i]++
-				second := calls[i] > 1
-				mu.Unlock()
-				if !second {
-					log(Ev{"e": "start", "i": i, "c": func() bool { return ctx.Err() != nil }})
-				}
-				var res string
-				if o.Kind == "hang" && !second && (i+len(sc.Oc))%2 == 0 {
-					tm := time.NewTimer(dialUnit)
-					select {
-					case <-ctx.Done():
-						tm.Stop()
-						log(Ev{"e": "end", "i": i, "r": "ctx"})
-						return nil, errors.New("ctx")
-					case <-tm.C:
-						return nil, &tls.ECHRejectionError{RetryConfigList: []byte{0, 1, 0}}
-					}
-				}
-				if o.Kind == "hang" {
-					<-ctx.Done()
-					res = "ctx"
-				} else {
-					tm := time.NewTimer(time.Duration(o.D) * dialUnit)
-					select {
-					case <-ctx.Done():
-						res = "ctx"
-					case <-tm.C:
-						res = o.Kind
-					}
+		dialFn := func(ctx context.Context, network, addr string, tc *tls.Config) (*dialConn, error) {
+			i := idx[addr]
+			if i == 0 {
+				log(Ev{"e": "badaddr", "addr": addr})
+				return nil, errors.New("unknown address")
+			}
+			o := sc.Oc[i-1]
+			// half of the hanging attempts hang in their *second* handshake: the first one is rejected by the server with
+			// retry configs after one time unit, and the attempt goes on with the new list - still one attempt, one Timeout
+			mu.Lock()
+			calls[i]++
+			second := calls[i] > 1
+			mu.Unlock()
+			if !second {
+				log(Ev{"e": "start", "i": i, "c": func() bool { return ctx.Err() != nil }})
+			}
+			var res string
+			if o.Kind == "hang" && !second && (i+len(sc.Oc))%2 == 0 {
+				tm := time.NewTimer(dialUnit)
+				select {
+				case <-ctx.Done():
 					tm.Stop()
+					log(Ev{"e": "end", "i": i, "r": "ctx"})
+					return nil, errors.New("ctx")
+				case <-tm.C:
+					return nil, &tls.ECHRejectionError{RetryConfigList: []byte{0, 1, 0}}
 				}
-				log(Ev{"e": "end", "i": i, "r": res})
-				if res == "ok" {
-					return &dialConn{i: i, log: log}, nil
+			}
+			if o.Kind == "hang" {
+				<-ctx.Done()
+				res = "ctx"
+			} else {
+				tm := time.NewTimer(time.Duration(o.D) * dialUnit)
+				select {
+				case <-ctx.Done():
+					res = "ctx"
+				case <-tm.C:
+					res = o.Kind
 				}
-				return nil, errors.New(res)
-			},
+				tm.Stop()
+			}
+			log(Ev{"e": "end", "i": i, "r": res})
+			if res == "ok" {
+				return &dialConn{i: i, log: log}, nil
+			}
+			return nil, errors.New(res)
 		}
 		ctx, cancel := context.WithCancel(context.Background())
 		defer cancel()
@@ -139,7 +142,27 @@ func runDialScenario(t *testing.T, sc dialScen, delay, timeout int) (evs []Ev, c
 			// zero targets: an IPv4 literal filtered out by the tcp6 family
 			network, addrs = "tcp6", []string{"127.0.0.1"}
 		}
-		c, err := d.Dial(ctx, network, strings.Join(addrs, ","), nil)
+		// the connection type is the application's: a pointer type, or (every other scenario) an interface type
+		var c *dialConn
+		var err error
+		if (sc.N+sc.K)%2 == 1 {
+			d := &ech.Dialer[dialIface]{MaxConcurrency: sc.K, ConcurrencyDelay: time.Duration(delay) * dialUnit, Timeout: time.Duration(timeout) * dialUnit,
+				DialFunc: func(ctx context.Context, network, addr string, tc *tls.Config) (dialIface, error) {
+					x, err := dialFn(ctx, network, addr, tc)
+					if x == nil {
+						return nil, err
+					}
+					return x, err
+				}}
+			var ci dialIface
+			ci, err = d.Dial(ctx, network, strings.Join(addrs, ","), nil)
+			if ci != nil {
+				c = ci.(*dialConn)
+			}
+		} else {
+			d := &ech.Dialer[*dialConn]{MaxConcurrency: sc.K, ConcurrencyDelay: time.Duration(delay) * dialUnit, Timeout: time.Duration(timeout) * dialUnit, DialFunc: dialFn}
+			c, err = d.Dial(ctx, network, strings.Join(addrs, ","), nil)
+		}
 		switch {
 		case err == nil && c != nil:
 			log(Ev{"e": "ret", "r": "conn", "i": c.i})
